@@ -1151,7 +1151,17 @@ func (t *c06tap) Sync() error {
 // (unbuffered), each IO leaf writes through a BufferedWriteSyncer into $C06_DIR/leaf<id>
 func c06child(*Ctx) {
 	var cs c06case
-	if err := json.Unmarshal([]byte(os.Getenv("C06_JSON")), &cs); err != nil {
+	raw := []byte(os.Getenv("C06_JSON"))
+	if f := os.Getenv("C06_JSON_FILE"); f != "" {
+		// cases too long for the environment (execve limits one string to 128 KiB) come through a file
+		b, err := os.ReadFile(f)
+		if err != nil {
+			fmt.Fprintln(os.Stderr, "bad case file:", err)
+			os.Exit(3)
+		}
+		raw = b
+	}
+	if err := json.Unmarshal(raw, &cs); err != nil {
 		fmt.Fprintln(os.Stderr, "bad case:", err)
 		os.Exit(3)
 	}
@@ -1235,7 +1245,15 @@ func c06runChild(c *Ctx, cs *c06case) (SX, error) {
 		return nil, err
 	}
 	cmd := exec.Command(exe, "C06child")
-	cmd.Env = append(os.Environ(), "C06_JSON="+string(js), "C06_DIR="+dir)
+	if len(js) > 100000 {
+		jf := filepath.Join(dir, "case.json")
+		if err := os.WriteFile(jf, js, 0o600); err != nil {
+			return nil, err
+		}
+		cmd.Env = append(os.Environ(), "C06_JSON_FILE="+jf, "C06_DIR="+dir)
+	} else {
+		cmd.Env = append(os.Environ(), "C06_JSON="+string(js), "C06_DIR="+dir)
+	}
 	var stderr bytes.Buffer
 	cmd.Stderr = &stderr
 	runErr := cmd.Run()
